@@ -3,7 +3,7 @@ import os, json, collections, random
 from . import core
 from .gen_inputs import cases_for
 import optable
-from optable import TYPES, ops_for, PX, px_ops
+from optable import TYPES, ops_for, PX, px_ops, forwarders
 
 RULE = ('inputs: exhaustive where the operand space is <= 2^16 (all P8E0 unary/binary, all P16E1 unary), otherwise structured '
         '(sign x regime run length x exponent x fraction patterns, neighbours, near-cancellation, ties, saturation, thresholds) '
@@ -28,7 +28,7 @@ PROPS = {
     'C08': dict(lean_quick=['Props.C08Fin'], prefixes=['convert']),
     'C09': dict(lean_quick=['Props.C09Fin'], prefixes=['p8e0::math', 'p16e1::math', 'p32e2::math']),
     'C10': dict(lean_quick=['Props.C10Fin', 'Props.C10Gen', 'Props.C10Mono'], prefixes=['p8e0::{', 'p16e1::{', 'p32e2::{', 'pxe1::{', 'pxe2::{']),
-    'C17': dict(lean_quick=['Props.C17Fin'], prefixes=['p8e0', 'p16e1', 'p32e2', 'quire']),
+    'C17': dict(lean_quick=['Props.C17Fin', 'Props.C17Fwd'], prefixes=['p8e0', 'p16e1', 'p32e2', 'quire']),
     'C11': dict(lean_quick=['Props.C11Fin'], prefixes=['p16e1::math', 'p8e0::math']),
     'C18': dict(lean_quick=['Props.C18'], prefixes=['polynom']),
     'C19': dict(lean_quick=['Props.C19'], prefixes=['p8e0::{impl#15}', 'p16e1::{impl#15}', 'p32e2::{impl#15}'], assumptions=['rand 0.8: gen_range(lo..hi) returns a value in [lo, hi)']),
@@ -168,6 +168,14 @@ def extra_streams(pid, tier, rng, scale):
                         trip = [toks[i:i + 3] for i in range(0, len(toks), 3)]
                         rng.shuffle(trip)
                         lines.append(qt + ' hist ' + ' '.join(' '.join(t) for t in trip))
+    if pid == 'C17':
+        # agreement pairs: the spelled operation and the inherent one on IDENTICAL inputs (compared pairwise by the check)
+        for ty in TYPES:
+            n = TYPES[ty]['n']
+            for (a_, b_, args) in forwarders(ty):
+                for vals in cases_for(ty, n, args, 2500 * scale * big, rng, TYPES, op=b_):
+                    tail = ' '.join('%x' % v for v in vals)
+                    lines.append('%s %s %s' % (ty, a_, tail)); lines.append('%s %s %s' % (ty, b_, tail))
     if pid in ('C18', 'C16'):
         from .gen_inputs import anyp, structured_posit
         per = (1500 if pid == 'C18' else 200) * scale * big
@@ -258,6 +266,27 @@ def extra_streams(pid, tier, rng, scale):
                 lines.append('%s hist fp %x neg' % (qt, x))
                 lines.append('%s hist a1 %x rt neg neg' % (qt, x))
     return lines
+
+def agreement_failures(pid, tag):
+    """C17: every spelled operation must return the same bits as the inherent operation on the same input"""
+    import glob
+    if pid != 'C17': return []
+    res = {}
+    for f in glob.glob(os.path.join(core.WORK, 'runs', tag, 'out_*.txt')):
+        for l in open(f):
+            if ' => ' not in l: continue
+            lhs, r = l.rstrip('\n').split(' => ', 1)
+            ws = lhs.split()
+            res[(ws[0], ws[1], tuple(ws[2:]))] = r
+    out = []
+    for ty in TYPES:
+        for (a_, b_, args) in forwarders(ty):
+            for (t, o, av), r in list(res.items()):
+                if t == ty and o == a_:
+                    r2 = res.get((ty, b_, av))
+                    if r2 is not None and r2 != r:
+                        out.append({'kind': 'AGREE', 'ty': ty, 'op': a_, 'args': list(av), 'impl': r, 'want': '%s (= %s.%s)' % (r2, ty, b_), 'line': ''})
+    return out
 
 def distinct_nontrivial(pid, passes):
     n = 0
